@@ -695,6 +695,9 @@ fn flatten_module<'a>(
         namespace.pop();
     }
     for (name, submod) in module.submodules.iter() {
+        if !is_name_valid(name.as_ref()) {
+            return Err(CompilationErrorPayload::BadModuleName(name.to_string()));
+        }
         namespace.push(name.as_ref());
         flatten_module(submod, recursion_limit, namespace, out)?;
         namespace.pop();
